@@ -23,7 +23,7 @@ fn any_v7_record() -> v7::FlowSet {
 
 /// K.common.v5 -- one record, all field values
 #[kani::proof]
-#[kani::unwind(4)]
+#[kani::unwind(10)]
 fn k_common_v5() {
     let h = v5::Header { version: 5, count: 1, sys_up_time: kani::any(), unix_secs: kani::any(), unix_nsecs: kani::any(),
                          flow_sequence: kani::any(), engine_type: kani::any(), engine_id: kani::any(), sampling_interval: kani::any() };
@@ -43,7 +43,7 @@ fn k_common_v5() {
 
 /// K.common.v7 -- one record, all field values
 #[kani::proof]
-#[kani::unwind(4)]
+#[kani::unwind(10)]
 fn k_common_v7() {
     let h = v7::Header { version: 7, count: 1, sys_up_time: kani::any(), unix_secs: kani::any(), unix_nsecs: kani::any(),
                          flow_sequence: kani::any(), reserved: kani::any() };
